@@ -1,5 +1,5 @@
 #!/usr/bin/env python3
-"""usage: make_seed_round.py <root e.g. /tmp/m7> <twist: narrow|interaction|dependency|free> <Cxx>...
+"""usage: make_seed_round.py <root e.g. /tmp/m7> <twist: narrow|interaction|dependency|scale|free> <Cxx>...
 Creates one detached scratch worktree of /repo per property (<root>_<Cxx>), an output directory
 (<root>_<Cxx>_out) holding ONLY the property's own text (property.json) and the agent's prompt
 (PROMPT.txt). Nothing from /verif other than the property text is given to the agent."""
@@ -10,6 +10,7 @@ TW = {
  "narrow": "THIS ROUND'S TWIST - the violation must have a NARROW TRIGGER: it must NOT be exposed by the smallest or most obvious inputs. Aim for something that needs one of: a particular non-initial state or history of several operations; exactly one of many configurations; a boundary or tie value; a particular size relation (degree >= 9, more rows than columns, length crossing a chunk size); a particular thread schedule.",
  "interaction": "THIS ROUND'S TWIST - INTERACTION: the violation must need TWO independent features / options / conditions at the same time, each of which alone still behaves correctly (for example: puncturing AND a backward interleaver; an outer-code threshold AND a zero report interval; padded output AND an empty row; the layered schedule AND degree-one clipping; an iteration limit of 0 AND a non-codeword input; one particular arithmetic AND one particular matrix shape; a reused object AND a changed argument). Say in notes.md which two things must coincide, and show in the demo that each alone passes.",
  "dependency": "THIS ROUND'S TWIST - the change must NOT be in the files the property is anchored in; break the property through something that code USES (a helper, a container, a shared data structure, another module).",
+ "scale": "THIS ROUND'S TWIST - BEYOND SMALL SCOPE: assume the project is checked by a tool that exhaustively enumerates SMALL inputs (matrices up to about 4x5, vectors of a few elements from a small alphabet, operation histories of a few steps, two or three threads) against reference models. Design the change so that its SMALLEST failing input is large or rare: it needs, for example, at least 7 rows or columns, a degree above 16, a history of 5 or more operations, a length beyond 1000, an accumulated count beyond 255, a numeric coincidence between two computed quantities, or 4 or more threads. State in notes.md the smallest failing input you know and why nothing smaller fails.",
  "free": "Prefer a change that needs something specific to manifest (a particular input, configuration, history or schedule) over one that fails on every input.",
 }[twist]
 tmpl = open(os.path.join(here, "seed_prompt.txt")).read()
